@@ -51,6 +51,8 @@ def run_scenario(scn):
 def replay_violation(pid, mod, obname, v, work, idx):
     """status: reproduced | mismatch | unavailable"""
     fn = getattr(mod, 'REPLAY', {}).get(obname) or getattr(mod, 'REPLAY', {}).get('*')
+    if fn is None and 'scenario_t' in v and hasattr(mod, 'ORACLE'):
+        fn = generic_replay(mod)
     if fn is None:
         return {'status': 'unavailable', 'detail': 'no replay builder for this obligation', 'traces': 0}
     try:
@@ -76,3 +78,23 @@ def replay_file(path):
     out = run_scenario(d['scenario'])
     print(json.dumps({'scenario': d['scenario'], 'real_output': out}, indent=1))
     return 0
+
+
+def generic_replay(mod):
+    """scenario template + model -> scenario; real run; the module's ORACLE(v, scenario, out) lists what is violated."""
+    from . import tojson, rawstore
+
+    def fn(v, run):
+        tojson.set_string_names({int(k): s for k, s in v.get('strings', {}).items()})
+        scn = tojson.instantiate(v['scenario_t'], v['model'])
+        out = run(scn)
+        if 'error' in out:
+            return {'status': 'unavailable', 'detail': out['error'], 'scenario': scn}
+        if isinstance(out.get('storage'), list):
+            out['storage_decoded'] = {rawstore.b64(k): val for k, val in rawstore.decode_storage(out['storage']).items()}
+        bad = mod.ORACLE(v, scn, out)
+        if bad is None:
+            return {'status': 'unavailable', 'detail': 'no oracle for claim ' + str(v.get('key')), 'scenario': scn, 'output': out}
+        return {'status': 'reproduced' if bad else 'mismatch', 'scenario': scn, 'output': out, 'oracle': bad,
+                'detail': '' if bad else 'real code satisfies the claim on the model input'}
+    return fn
